@@ -46,6 +46,14 @@ def _components(n, edges):
     return comp
 
 
+def _series_index(label_kind, n):
+    if "perm" in label_kind:
+        return list(range(n - 1, -1, -1))          # a permutation of 0..n-1 (sorted table)
+    if "gaps" in label_kind:
+        return [3 * i + 1 for i in range(n)]       # filtered rows
+    return ["r%d" % i for i in range(n)]           # string row labels
+
+
 def _body_cc(n, ne, as_array, label_kind):
     def body():
         from pyrepseq import clustering
@@ -56,9 +64,15 @@ def _body_cc(n, ne, as_array, label_kind):
             a, b = sym.sym_int(f"e{k}_a", 0, n - 1), sym.sym_int(f"e{k}_b", 0, n - 1)
             d = sym.sym_int(f"e{k}_d", 0, 2)
             edges.append((a, b, d))
-        nodes = [sym.sym_str(f"node{i}", 1) for i in range(n)] if label_kind == "str" else [10 * (i + 1) for i in range(n)]
+        nodes = [sym.sym_str(f"node{i}", 1) for i in range(n)] if label_kind.startswith("str") else [10 * (i + 1) for i in range(n)]
         adj = np_model.array([list(e) for e in edges]) if as_array and ne else [tuple(e) for e in edges]
-        got = clustering.graph_clustering(adj, nodes)
+        arg = nodes
+        if label_kind.endswith("series"):
+            # the node labels as a pandas Series whose own index is NOT 0..n-1 (a column of a sorted / filtered table): labels pair with vertex
+            # numbers by POSITION
+            from models import pd_model
+            arg = pd_model.Series(list(nodes), index=_series_index(label_kind, n))
+        got = clustering.graph_clustering(adj, arg)
         # edges have been decided on this path (the graph constructor needs concrete vertex ids)
         conc = [(int(a), int(b)) for a, b, _ in edges]
         comp = _components(n, conc)
@@ -70,7 +84,7 @@ def _body_cc(n, ne, as_array, label_kind):
         if len(rows_nodes) != len(expect_rows):
             return False, (lambda: f"rows {_realize(rows_nodes)} for edges {_realize(conc)}")
         for pos, v in enumerate(expect_rows):
-            if rows_nodes[pos] is not nodes[v] and not (label_kind != "str" and rows_nodes[pos] == nodes[v]):
+            if rows_nodes[pos] is not nodes[v] and not (not label_kind.startswith("str") and rows_nodes[pos] == nodes[v]):
                 return False, "row labels are not the caller's node labels in input order"
         for i, v in enumerate(expect_rows):
             for j, w in enumerate(expect_rows):
@@ -86,9 +100,13 @@ def _replay_cc(n, ne, as_array, label_kind):
         import numpy as np
         from pyrepseq import clustering
         edges = [(int(inputs[f"e{k}_a"]), int(inputs[f"e{k}_b"]), int(inputs[f"e{k}_d"])) for k in range(ne)]
-        nodes = [inputs[f"node{i}"] for i in range(n)] if label_kind == "str" else [10 * (i + 1) for i in range(n)]
+        nodes = [inputs[f"node{i}"] for i in range(n)] if label_kind.startswith("str") else [10 * (i + 1) for i in range(n)]
         adj = np.array(edges) if as_array and ne else list(edges)
-        got = clustering.graph_clustering(adj, nodes)
+        arg = nodes
+        if label_kind.endswith("series"):
+            import pandas as pd
+            arg = pd.Series(list(nodes), index=_series_index(label_kind, n), dtype=object)
+        got = clustering.graph_clustering(adj, arg)
         comp = _components(n, [(a, b) for a, b, _ in edges])
         size = {}
         for v in range(n):
@@ -202,8 +220,9 @@ def conditions(tier):
     T = tier == "thorough"
     cfgs = [(2, 0, False, "str"), (2, 1, False, "str"), (3, 1, False, "str"), (3, 2, False, "str"), (4, 2, False, "int"),
             (3, 2, True, "str"), (3, 0, True, "int"), (1, 0, False, "str")]
+    cfgs += [(3, 1, False, "str-perm-series"), (3, 2, False, "int-gaps-series"), (2, 1, True, "str-text-series"), (3, 2, True, "str-perm-series")]
     if T:
-        cfgs += [(4, 3, False, "int"), (3, 3, True, "str"), (5, 2, False, "str")]
+        cfgs += [(4, 3, False, "int"), (3, 3, True, "str"), (5, 2, False, "str"), (4, 2, False, "str-perm-series")]
     for n, ne, arr, lk in cfgs:
         out.append(Condition(f"C15/cc/nodes={n}/edges={ne}/" + ("array" if arr else "list") + f"/{lk}", _body_cc(n, ne, arr, lk),
                              _replay_cc(n, ne, arr, lk), budget=400 if not T else 3000, models=M,
